@@ -46,6 +46,8 @@ func c13(c *Ctx) {
 	}
 	c.forwardedExtends("forwarded")
 	c.primaryOnlyHandlers("primary-only")
+	c.ExpectAll("primary-only/halt-acquire-under-primary-context", c.CallArgs("http.(*Server).handlePostHalt", c.P.PlainCalls("litefs.(*DB).AcquireHaltLock"), 1), pat("litefs.(*Store).PrimaryCtx(p0.store, net/http.(*Request).Context(@@))"), 1,
+		"POST /halt waits for the write lock under the primary-lease context", "F53: a node demoted while the request waited still granted the halt lock")
 	p := c.P
 	ah := "litefs.(*DB).AcquireHaltLock"
 	field := p.Writes("litefs.DB.haltLockAndGuard")
